@@ -86,7 +86,11 @@ def sites(v, spec, path=()):
 
 @st.composite
 def strong_cases(draw):
-    spec = draw(gen.models(STRONG_FEATS, max_classes=4))
+    spec = copy.deepcopy(draw(gen.models(STRONG_FEATS, max_classes=4)))
+    for c in spec['classes']:
+        if c.get('kind') == 'enum' and draw(st.booleans()):
+            # an enum whose _yatiml_savorize rewrites the scalar (set_value)
+            gen.case_hook_enum(spec, c['name'])
     objs = [c['name'] for c in spec['classes'] if c.get('kind', 'obj') == 'obj']
     if objs and draw(st.integers(0, 4)) > 0:
         big = [c['name'] for c in spec['classes'] if c['name'] in objs and len(c['params']) >= 2]
